@@ -464,7 +464,7 @@ def static_source(cases):
 
 def build_driver(ctx, cases, tag):
     """copy the driver next to the generated static types (under the harness module, git-ignored) and build it"""
-    rel = os.path.join("work", "c11_%s_%s" % (ctx.tier, tag))
+    rel = os.path.join("work", "c11_%s_%s%s" % (ctx.tier, tag, getattr(ctx, "worktag", "")))
     d = os.path.join(vlib.HARNESS, rel)
     shutil.rmtree(d, ignore_errors=True)
     os.makedirs(d)
